@@ -31,6 +31,7 @@ type faultReader struct {
 	tripped  bool
 	seekable bool
 	oneShot  bool // fail once, then go on delivering the data
+	eofData  bool // the Read that delivers the last bytes also returns io.EOF (as io.Reader allows)
 }
 
 func (f *faultReader) Read(p []byte) (int, error) {
@@ -61,6 +62,9 @@ func (f *faultReader) Read(p []byte) (int, error) {
 	}
 	copy(p, f.data[f.pos:f.pos+n])
 	f.pos += n
+	if f.eofData && f.pos == len(f.data) {
+		return n, io.EOF
+	}
 	return n, nil
 }
 
